@@ -78,3 +78,7 @@ CORPUS += [
     M("stored-token-not-used", L, "            token = self._token\n            key = self._key\n", "            key = self._key\n"),
     M("hex-key-not-converted", L, "            token = convert(token)\n            key = convert(key)\n", "            token = convert(token)\n"),
 ]
+CORPUS += [
+    M("device-authenticate-swallows-failure", "msmart/base_device.py", "        except (ProtocolError, TimeoutError) as e:\n            raise AuthenticationError(e) from e", "        except (ProtocolError, TimeoutError) as e:\n            _LOGGER.error(e)"),
+    M("device-authenticate-no-handshake", "msmart/base_device.py", "            await self._lan.authenticate(token, key)\n", "            pass\n"),
+]
